@@ -117,6 +117,10 @@ class PyvTheory:
             return ClauseList(recv, args[0])
         if isinstance(recv, IntText) and name == "strip" and not args:
             return recv
+        if isinstance(recv, IntText) and name == "isdigit" and not args:
+            return True          # the decimal text of a non-negative integer (preconditions of the cases)
+        if isinstance(recv, str) and name == "isdigit" and not args:
+            return recv.isdigit()
         if isinstance(recv, SpecObj) and name == "contains" and len(args) >= 1 and isinstance(args[0], Dotted):
             # A-PKG-CONTAINS: Specifier(clause).contains(version text) is the PEP 440 meaning of the clause on release-only versions
             cand = seg_terms(args[0].segs)
@@ -241,7 +245,10 @@ def atom(th, op, segs, reversed_=False):
 
 def value_shapes():
     X, Y = z3.Int("X"), z3.Int("Y")
-    return [("X", [IntText(X)], [X >= 0]), ("X.Y", [IntText(X), IntText(Y)], [X >= 0, Y >= 0]), ("X.Y.0", [IntText(X), IntText(Y), "0"], [X >= 0, Y >= 0])]
+    Z = z3.Int("Z")
+    return [("X", [IntText(X)], [X >= 0]), ("X.Y", [IntText(X), IntText(Y)], [X >= 0, Y >= 0]), ("X.Y.0", [IntText(X), IntText(Y), "0"], [X >= 0, Y >= 0]),
+            # a literal longer than python_version's own X.Y (`python_version >= "3.8.1"` selects 3.9 and later; D25)
+            ("X.Y.Z", [IntText(X), IntText(Y), IntText(Z)], [X >= 0, Y >= 0, Z >= 1])]
 
 
 def cases(th):
@@ -255,6 +262,9 @@ def cases(th):
             m = atom(th, op, segs)
 
             def post(ex, res, op=op, segs=segs):
+                if res is None:
+                    # "cannot be expressed as a bound on python_full_version": the caller leaves the two atoms unmerged
+                    return [("C11.normalize.none-leaves-the-atoms-unmerged", z3.BoolVal(True))]
                 if not isinstance(res, ParsedSpec):
                     return [("C11.normalize.returns-a-parsed-clause", z3.BoolVal(False))]
                 c = res.clause
